@@ -187,11 +187,17 @@ class Canon(ast.NodeTransformer):
         for v in src:
             if isinstance(v, ast.FormattedValue) and isinstance(v.value, ast.Constant) and isinstance(v.value.value, str) and v.conversion == -1 and v.format_spec is None:
                 v = ast.copy_location(ast.Constant(value=v.value.value), v)
+            elif isinstance(v, ast.FormattedValue) and isinstance(v.value, ast.Constant) and type(v.value.value) in (int, bool) and v.conversion == -1 and v.format_spec is None:
+                v = ast.copy_location(ast.Constant(value=str(v.value.value)), v)
             if vals and isinstance(v, ast.Constant) and isinstance(vals[-1], ast.Constant) and isinstance(v.value, str) and isinstance(vals[-1].value, str):
                 vals[-1] = ast.copy_location(ast.Constant(value=vals[-1].value + v.value), vals[-1])
             else:
                 vals.append(v)
         node.values = vals
+        if len(vals) == 1 and isinstance(vals[0], ast.Constant) and isinstance(vals[0].value, str):
+            return ast.copy_location(ast.Constant(value=vals[0].value), node)       # nothing left to format
+        if not vals:
+            return ast.copy_location(ast.Constant(value=''), node)
         return node
 
     def visit_IfExp(self, node: ast.IfExp):
